@@ -150,6 +150,39 @@ def run(ctx):
             pi.loc(), instance='enable-conditions')
   ctx.check(has(lambda cs: ("feature == 'dynamic_registration'", False) in cs),
             'C19.guards', construct(pi), 'an unknown __gin__ feature is rejected', 'unknown __gin__ features are no longer rejected', pi.loc(), instance='unknown-feature')
+  # which module object a statement binds: the leaf module for `from` / `as` forms, the top-level package for a plain `import a.b.c`
+  imps = [cc for cc in walk_local(pi.node) if isinstance(cc, ast.Call) and u(cc.func) in ('__import__', 'importlib.import_module', 'import_module')]
+  if not imps:
+    raise AnalysisError('process_import no longer imports the module through __import__ / importlib in its own body')
+  okb = False
+  whyb = 'the module is imported as `%s`' % u(imps[0])
+  for cc in imps:
+    if u(cc.func) == '__import__':
+      fl = next((k.value for k in cc.keywords if k.arg == 'fromlist'), cc.args[3] if len(cc.args) > 3 else None)
+      if fl is not None:
+        stn = enclosing_stmt(cc)
+        fle = expand_expr(facts_at(g3, facts3, stn) or frozenset(), fl)
+        leaf_when = None
+        if isinstance(fle, ast.IfExp) and isinstance(fle.body, (ast.List, ast.Tuple)) and fle.body.elts and u(fle.orelse) == 'None':
+          leaf_when = u(fle.test).replace(' ', '')
+        okb = leaf_when in ('statement.is_fromorstatement.alias', 'statement.aliasorstatement.is_from')
+        whyb = 'the leaf module is bound when `%s`' % (u(fle.test) if isinstance(fle, ast.IfExp) else u(fle))
+  if not any(u(cc.func) == '__import__' for cc in imps):
+    # importlib.import_module(name) returns the leaf module; the top-level package must be taken exactly when neither `from` nor `as` is used
+    tops = [cc for cc in imps if cc.args and not u(cc.args[0]).replace(' ', '') == 'statement.module']
+    for cc in tops:
+      stn = enclosing_stmt(cc)
+      fs_ = facts_at(g3, facts3, stn) or frozenset()
+      plain = ('c', 'statement.is_from or statement.alias', False) in fs_ or \
+          (('c', 'statement.is_from', False) in fs_ and ('c', 'statement.alias', False) in fs_)
+      okb = plain
+      whyb = 'the top-level package is bound under conditions other than "neither from nor as" (%s)' % sorted(f_[1] for f_ in fs_ if f_[0] == 'c')[:4]
+    if not tops:
+      whyb = 'a plain `import a.b.c` no longer binds the top-level package'
+  ctx.check(okb, 'C19.guards', construct(pi),
+            'a plain `import a.b.c` binds the top-level package, `from a.b import c` / `import a.b.c as x` bind the module named',
+            'which module object an import statement binds changed: %s -- a selector written against the statement then resolves to another object' % whyb,
+            pi.loc(imps[0]), instance='bound-module')
   tw = [n for n in g3.live_nodes() if n.kind == 'stmt' and isinstance(n.ast, ast.Assign) and u(n.ast.targets[0]).startswith('self._symbol_table[')]
   ok = bool(tw) and all(("name == 'gin'", False) in {(f[1], f[2]) for f in facts3[n.id] if f[0] == 'c'} and
                         (def_of(facts3[n.id], 'name') or '') == 'statement.bound_name()' and u(n.ast.targets[0]) == 'self._symbol_table[name]' for n in tw)
